@@ -329,10 +329,17 @@ theorem monotone_ubuntu_partial (p p' : Pkg) (v : Vuln) (v1 v1' : VerDeb.Version
 
 /-! ### alpine (go-apk-version) -/
 
-/-- go-apk-version's comparison (as the scan of the two token streams, the
-    formulation `./check` compares with the real code next to the lock-step
-    transcription) is a total preorder on **all** strings, valid or not. -/
-theorem apk_cmp_totalPre : TotalPre VerApk.compare := VerApk.compare_totalPre
+/-- The statement-by-statement transcription of go-apk-version's `compare`
+    (lock-step loop over two tokenizers, then the decisions after it) computes
+    the lexicographic scan of the two token streams. -/
+theorem apk_compare_loop_eq_stream (a b : Str) : VerApk.compareLoop a b = VerApk.compare a b :=
+  VerApk.compareLoop_eq_compare a b
+
+/-- go-apk-version's comparison is a total preorder on **all** strings, valid or not. -/
+theorem apk_cmp_totalPre : TotalPre VerApk.compareLoop := by
+  have : VerApk.compareLoop = VerApk.compare := by
+    funext a b; exact VerApk.compareLoop_eq_compare a b
+  rw [this]; exact VerApk.compare_totalPre
 
 /-- alpine: an advisory without fixed version is reported. -/
 theorem no_fix_alpine (p : Pkg) (v : Vuln) (hF : v.fixed = []) : vulnerableAlpine p v = .ok true := by
